@@ -72,9 +72,9 @@ CLAIMS = {
    note="PARTIAL: the round-trip theorem is proved for Sorenson headers; for standard headers the same statement is carried by the three-way correspondence (implementation = model = specification) only. The clause `a decoded picture reports the header it was decoded from` is covered by the P-line digests (tr, type, quantizer, options, size). Baseline headers are exercised without the scalability option; UFEP=000 inheritance uses synthesised previous headers (the parser demands RPRP after any header that carries a format). Axioms: propext, Classical.choice, Quot.sound.",
    design="DESIGN.md §4 C06", technique="Lean 4 proof (encoder/parser round trip by symbolic evaluation) + exhaustive-per-field three-way correspondence"),
  "C14": dict(
-   text="Lean 4 theorems over a concrete model of the reader (source, retained buffer, bits_read): skip_bits consumes exactly n bits or, at end of data, nothing; fetching bytes for a peek or a failed read changes nothing observable; rollback to a checkpoint restores exactly the checkpoint's bits (all fetched bytes retained) and never fails when no commit intervened; commit keeps bits, alignment phase and well-formedness; on the specification machine, start-code recognition reports only genuine start codes, the nearest one, within realignment+1 <= 8 skipped bits, and consumes nothing. The concrete model, including peek_bits' accumulation loop, and the specification machine are both run against the real H263Reader on bounded-exhaustive and random nested operation scripts.",
-   note="PARTIAL: `peek_bits returns the MSB-first value of the next n bits` (the per-byte accumulate loop) and the script-level refinement `run_refines` are carried by the three-way correspondence, not yet by theorems. Scope: signed reads of width 0, commit inside an open transaction and bare failed read_vlc are excluded / treated as documented (see evidence assumptions). Axioms: propext, Classical.choice, Quot.sound.",
-   design="DESIGN.md §4 C14", technique="Lean 4 proof (reader invariants, start-code soundness) + three-way script correspondence"),
+   text="Lean 4 theorems over a concrete model of the reader (source, retained buffer, bits_read): peek_bits - including its per-byte accumulation loop with checked_shl/checked_shr - returns exactly what the specification machine (a bit list) returns: the MSB-first value of the next n bits, end-of-data, or an internal error for n > W, consuming nothing (byte-level identity kernel-checked for all 256 x 8 x 9 cases, lifted by induction over the buffered bytes); read_bits consumes exactly the bits it returns or nothing; skip_bits likewise; fetching bytes is unobservable; rollback restores exactly the checkpoint's bits and cannot fail without an intervening commit; commit keeps bits, phase and well-formedness; start-code recognition on the specification machine reports only genuine, nearest start codes within realignment+1 <= 8 bits and consumes nothing. Concrete model and specification machine are both run against the real H263Reader on bounded-exhaustive and random nested scripts.",
+   note="PARTIAL: the per-operation refinements are proved; their lifting to whole nested scripts (run_refines) and to the start-code / VLC loops over the concrete reader is carried by the three-way correspondence. Scope: signed reads of width 0, commit inside an open transaction and bare failed read_vlc are excluded / treated as documented (see evidence assumptions). Axioms: propext, Classical.choice, Quot.sound.",
+   design="DESIGN.md §4 C14", technique="Lean 4 proof (per-operation refinement of the concrete reader to a bit list) + three-way script correspondence"),
 }
 
 PENDING = {}
